@@ -33,7 +33,7 @@ RULE = ("case = (energy kind [20: Gaussian unit/diagonal/scaled/sandwich covaria
         "variable-covariance Gaussian real/complex x full/approximate Fisher, _SpecialGammaEnergy real/complex], "
         "wrapper [plain, scaled, sum of two data sets, sum with a Gaussian, sum over a MultiDomain, linear / exp / "
         "exp-linear / tanh-link / softmax forward model, StandardHamiltonian with and without sampling controller, "
-        "Hamiltonian of model], pixels, point of a 4-value grid per coordinate (full product up to 64|1024 points, "
+        "Hamiltonian of model], pixels, point of a 4-value grid per coordinate (full product up to 64|256 points, "
         "else 4 rotations + all single-coordinate deviations)); every case enumerates ALL data outcomes / exact "
         "quadrature nodes and runs the real energy on each; distinct = different (kind, wrapper, npix, point); "
         "non-trivial = more than one data outcome and the wrapper produced the operator class it is about")
@@ -203,7 +203,7 @@ def cases(tier, seed):
     # reference self-validation (jax autodiff of the textbook pdfs vs. the numpy scores/Fisher used in bulk)
     ref = [dict(kind=kind, wrap="refcheck", npix=2, pt=[], seed=seed, tier=tier) for kind in KINDS]
     npixs = (1, 2) if tier == "quick" else (1, 2, 3)
-    full_limit = 64 if tier == "quick" else 1024
+    full_limit = 64 if tier == "quick" else 256
     for npix in npixs:
         for kind, ptype in KINDS.items():
             for wrap in WRAPS_FOR[ptype]:
